@@ -54,6 +54,7 @@ pub struct Verdict { pub kind: String, pub nontrivial: bool, pub classes: Vec<St
 pub struct Done { pub case: Case, pub obs: String, pub v: Verdict }
 
 pub fn exec_guarded(p: &PropDef, input: &[String]) -> String {
+    crate::props::common::set_case_mode(input);
     let r = std::panic::catch_unwind(std::panic::AssertUnwindSafe(|| (p.exec)(input)));
     match r {
         Ok(Some(s)) => s,
